@@ -20,7 +20,7 @@ type Profile struct {
 	OpenMid    int  // percentage of (non-final) transactions that are left in flight while later transactions run and commit; at most two per history
 	Huge       int  // percentage of histories that contain one transaction writing more log (about 600 KB) than the log buffer holds (516 KB) while the pool is large enough not to evict: the buffer-full path of the log manager
 	PostCrash  int  // percentage of histories whose crash images are, after recovery and new statements, crashed and recovered once more
-	Bulk       int  // percentage of statements that touch many pages at once (8-24 long rows inserted / 8-24 rows enlarged), so that one open transaction dirties more pages than the pool holds
+	Bulk       int  // percentage of statements that touch many pages at once (8-24 long rows inserted / 8-24 rows enlarged / up to 24 rows deleted), so that one open transaction dirties more pages than the pool holds
 }
 
 var T1 = dbh.TableDef{Name: "t", Cols: []dbh.Col{{Name: "id", T: "i", Idx: dbh.IdxSkip}, {Name: "v", T: "s", Idx: dbh.IdxNone}, {Name: "n", T: "i", Idx: dbh.IdxSkip}}}
@@ -83,6 +83,20 @@ func (g *genState) genStmt(t *rapid.T, def *dbh.TableDef, ids *[]int32) dbh.Stmt
 	idc := def.Cols[0].Name
 	if g.bulk > 0 && rapid.IntRange(0, 99).Draw(t, "bulkdie") < g.bulk {
 		n := rapid.IntRange(8, 24).Draw(t, "bulkn")
+		if len(*ids) >= 8 && rapid.IntRange(0, 3).Draw(t, "bulkdel") == 0 {
+			// delete up to n rows in one statement: at commit their removal is applied page by page, so that (in a small pool) the
+			// log is flushed by evictions between the APPLYDELETE records and the COMMIT record
+			a := pick(t, *ids, "bd")
+			b := a + int32(n)
+			var keep []int32
+			for _, x := range *ids {
+				if x < a || x > b {
+					keep = append(keep, x)
+				}
+			}
+			*ids = keep
+			return dbh.Stmt{Kind: "delete", Table: def.Name, Where: dbh.And(dbh.Leaf(idc, ">=", dbh.IntV(a)), dbh.Leaf(idc, "<=", dbh.IntV(b)))}
+		}
 		if hasV && len(*ids) >= 5 && rapid.Bool().Draw(t, "bulkupd") {
 			// enlarge up to n rows in one statement: relocations allocate new pages while earlier pages of the statement are still dirty
 			a := pick(t, *ids, "ba")
